@@ -569,7 +569,9 @@ pub fn part_fuzz(name: &str, target: &'static str, runs: u64, max_len: u32) -> P
                 let _ = std::process::Command::new("tar").args(["xzf", &archive, "-C", &corpus]).output();
             }
             if target == "c09_chunk_recv" {
-                let _ = std::process::Command::new(FUZZ_BIN).arg("-runs=1").env("VERIF_FUZZ_MKCORPUS", &corpus).output();
+                // (the target leaves through exit(0) inside its first run, which libFuzzer records as an artifact: keep that
+                // empty file in the scratch directory under a name the artifact search below does not match)
+                let _ = std::process::Command::new(FUZZ_BIN).arg("-runs=1").arg(format!("-artifact_prefix={}/mkcorpus-", dir)).env("VERIF_FUZZ_MKCORPUS", &corpus).output();
             }
             let stats_file = format!("{}/stats.json", dir);
             let seed = (ctx.seed % 0xFFFF_FFFE) + 1;
